@@ -10,6 +10,7 @@ UNITS = {
     'Constexpr': (os.path.join(vlib.VERIF, 'harness/wrap_constexpr.c'), ['w_const_pop', 'w_const_lssb']),
     'Rand': (os.path.join(vlib.REPO, 'librfn/rand.c'), ['rand31_r']),
     'Rotenc': (os.path.join(vlib.REPO, 'librfn/rotenc.c'), ['rotenc_decode', 'rotenc_count14', 'rotenc_count']),
+    'Hex': (os.path.join(vlib.REPO, 'librfn/hex.c'), ['hexchar', 'nibble']),
     'Util': (os.path.join(vlib.REPO, 'librfn/util.c'), ['cyclecmp32']),
 }
 
